@@ -36,7 +36,8 @@ def gen(w, rng, tier):
             if w.be == "f64":
                 ams = [a for a in ams if a[0] not in ("negzero",)]   # -0.0: see DESIGN (sign of negative zero)
             for lab, a in [rng.choice(ams) for _ in range(2)]:
-                ops.append((f"fmtrt:{lab}", f"fmtrt {t['name']} {i} {a}"))
+                if " " not in u["symbol"]:      # the round trip splits the text at its last space
+                    ops.append((f"fmtrt:{lab}", f"fmtrt {t['name']} {i} {a}"))
             for _ in range(per):
                 lab, a = rng.choice(ams)
                 flags, wd, p = rand_spec(rng)
